@@ -4,7 +4,7 @@ from .. import gencases as G
 from .. import rtfamily as R
 from .. import sx
 
-ELEMS = ["u16", "i8", "u64", "i128", "bool", "char", "str", "dur", "bytes", "uuid", "bigint", "i32"]
+ELEMS = ["u16", "i8", "u64", "i128", "bool", "char", "str", "dur", "bytes", "uuid", "bigint", "bigdec", "i32"]
 SRC = ["vec", "slice", "ll", "hset", "bset", "arr"]
 DST = ["vec", "ll", "hset", "bset", "arr"]
 
